@@ -963,7 +963,13 @@ fn catalogue_inner(prop: &str, t: Tier, seed: u64, out: &mut Vec<Entry>) {
                 let c = mkc(Size::mv(2, 1, 0), vec![PolySpec::new(1)]);
                 add(format!("hyrax/c{}", which), format!("{:?}", c.sz), Box::new(move || c10::hyrax(&c, which)));
             }
-            for which in 0..=11usize {
+            {
+                // Sonic: label in a gap of the enforced set
+                let mut c = mkc(Size::uni(4, 3, 0), vec![PolySpec::new(2).bound(3)]);
+                c.enforced = Some(vec![1, 3]);
+                add("sonic/bound-gap-c11".into(), format!("{:?} {:?} enforced {:?}", c.sz, c.polys, c.enforced), Box::new(move || c10::sonic(&c, 11)));
+            }
+            for which in 0..=13usize {
                 let mut c = mkc(Size::uni(4, 3, 0), vec![PolySpec::new(4).conc()]);
                 c.sym_points = false;
                 c.sym_ch = false;
